@@ -512,8 +512,11 @@ func (m *moCtx) comparatorTotal(fd *ast.FuncDecl, call *ast.CallExpr, sl types.O
 			}
 		}
 	}
-	if !ok || len(lit.Body.List) != 1 {
-		return "comparator is not a single-statement function literal"
+	if !ok {
+		return "comparator is not a function literal"
+	}
+	if len(lit.Body.List) != 1 {
+		return m.comparatorLitTotal(fd, lit, sl)
 	}
 	rs, ok := lit.Body.List[0].(*ast.ReturnStmt)
 	if !ok || len(rs.Results) != 1 {
@@ -619,6 +622,91 @@ func (e *Env) comparatorTotal2(pkg *packages.Package, d *ast.FuncDecl, pa, pb st
 	if !ok || len(rets) == 0 {
 		return "path conditions of " + d.Name.Name + " not computable"
 	}
+	return comparatorTotalRets(d.Name.Name, rets, pa, pb, nil)
+}
+
+// comparatorLitTotal: a comparator literal with several statements, decided like a comparator
+// function: its returns (path condition, result) are written over the two elements a = S[i] and
+// b = S[j] of the sorted slice S; an index i or j that is left over reads something other than
+// the sorted slice at that position — a parallel slice, which sort.Slice does not permute along
+// with S, so that after the first swap the comparator compares other elements' keys.
+func (m *moCtx) comparatorLitTotal(fd *ast.FuncDecl, lit *ast.FuncLit, sl types.Object) string {
+	var pkgPath string
+	if sl.Pkg() != nil {
+		pkgPath = sl.Pkg().Path()
+	}
+	c := schema.CtxFor(m.e.Prog, pkgPath)
+	if c == nil {
+		return "comparator literal: package context not available"
+	}
+	var ps []string
+	for _, p := range lit.Type.Params.List {
+		for _, nm := range p.Names {
+			ps = append(ps, nm.Name)
+		}
+	}
+	if len(ps) != 2 {
+		return "comparator parameters"
+	}
+	undo := c.InstallReachingIn(lit.Body)
+	defer undo()
+	var rets []funcReturn
+	good := true
+	boolTexts := map[string]bool{}
+	ast.Inspect(lit.Body, func(n ast.Node) bool {
+		switch x := n.(type) {
+		case *ast.FuncLit:
+			return x == lit
+		case *ast.BinaryExpr:
+			if x.Op == token.EQL || x.Op == token.NEQ {
+				if b, ok := m.info.TypeOf(x.X).Underlying().(*types.Basic); ok && b.Info()&types.IsBoolean != 0 {
+					boolTexts[c.ExprStr(x.X)] = true
+					boolTexts[c.ExprStr(x.Y)] = true
+				}
+			}
+		case *ast.ReturnStmt:
+			cond, ok := pathCond(c, lit.Body.List, x)
+			if !ok {
+				good = false
+			}
+			r := funcReturn{cond: cond, pos: x.Pos()}
+			for _, res := range x.Results {
+				r.results = append(r.results, c.ExprStr(res))
+			}
+			rets = append(rets, r)
+		}
+		return true
+	})
+	if !good || len(rets) == 0 {
+		return "path conditions of the comparator literal not computable"
+	}
+	// a = S[i], b = S[j]
+	sname := regexp.QuoteMeta(sl.Name())
+	reI := regexp.MustCompile(`(\b\w+\.)*\b` + sname + `\[` + regexp.QuoteMeta(ps[0]) + `\]`)
+	reJ := regexp.MustCompile(`(\b\w+\.)*\b` + sname + `\[` + regexp.QuoteMeta(ps[1]) + `\]`)
+	left := regexp.MustCompile(`\[(` + regexp.QuoteMeta(ps[0]) + `|` + regexp.QuoteMeta(ps[1]) + `)\]`)
+	sub := func(t string) string { return reJ.ReplaceAllString(reI.ReplaceAllString(t, "elemA"), "elemB") }
+	for k := range rets {
+		rets[k].cond = sub(rets[k].cond)
+		for q := range rets[k].results {
+			rets[k].results[q] = sub(rets[k].results[q])
+		}
+		for _, t := range append([]string{rets[k].cond}, rets[k].results...) {
+			if mm := left.FindString(t); mm != "" {
+				return "the comparator reads position " + mm + " of something other than the sorted slice " + sl.Name() + " (in `" + t + "`): sort.Slice permutes only " + sl.Name() + ", so after the first swap that value belongs to another element and the comparator is no longer an order"
+			}
+		}
+	}
+	bt := map[string]bool{}
+	for t := range boolTexts {
+		bt[sub(t)] = true
+	}
+	return comparatorTotalRets("the comparator literal", rets, "elemA", "elemB", bt)
+}
+
+func comparatorTotalRets(name string, rets []funcReturn, pa, pb string, boolTexts map[string]bool) string {
+	d := struct{ Name struct{ Name string } }{}
+	d.Name.Name = name
 	swapIdent := func(n string) string {
 		switch n {
 		case pa:
@@ -639,6 +727,9 @@ func (e *Env) comparatorTotal2(pkg *packages.Package, d *ast.FuncDecl, pa, pb st
 		return x
 	}
 	isBoolish := func(x ast.Expr) bool {
+		if boolTexts[types.ExprString(ast.Unparen(x))] {
+			return true
+		}
 		switch v := ast.Unparen(x).(type) {
 		case *ast.UnaryExpr:
 			return v.Op == token.NOT
